@@ -3,7 +3,7 @@ evaluator of rel.py (direct oracle of C14-C17); plus hash transparency checks on
 import itertools, json, random, re
 from . import rel, driver
 from .pipeline import Builder
-from .codec import canon, exc_name, hash_to_json
+from .codec import canon, exc_name, hash_to_json, val_to_json
 
 FIELDS_EXTRA = ['x', 'y', 'z', 't', 'k1', 'k2', 'id']
 
@@ -186,6 +186,44 @@ def run_dynamic_ids(seed):
     return problems
 
 
+def run_typed_ids(seed):
+    """Merge of Sources whose ids are not strings (integers of different lengths, also negative): the exposed ids are the sorted
+    union in the order of the ids themselves, every id is routed to its owner (C14), also through a nested Merge"""
+    rng = random.Random(seed)
+    pool = rng.sample([2, 9, 10, 30, 100, 1000, -1, -20, 7, 15, 205, 33], rng.randint(3, 8))
+    n_parts = rng.randint(2, 3)
+    parts = [[] for _ in range(n_parts)]
+    for i in pool:
+        parts[rng.randrange(n_parts)].append(i)
+    parts = [p for p in parts if p]
+    if len(parts) < 2:
+        return []
+    srcs = [{'k': 'source', 'cls': f'TI{j}', 'ids': ids, 'fields': {'x': {'args': ['i'], 'f': f'TI{j}.x'}}, 'params': {}, 'cargs': {}, 'defaults': {}}
+            for j, ids in enumerate(parts)]
+    d = {'k': 'merge', 'parts': srcs}
+    if len(srcs) == 3 and rng.random() < 0.5:
+        d = {'k': 'merge', 'parts': [{'k': 'merge', 'parts': srcs[:2]}, srcs[2]]}
+    problems = []
+    try:
+        b = Builder()
+        layer = b.layer(d)
+        got = tuple(layer.ids)
+        want = tuple(sorted(i for p in parts for i in p))
+        if got != want:
+            problems.append({'desc': d, 'msg': f'Merge of datasets with ids {parts} exposes ids {list(got)}, the sorted union is {list(want)}'})
+        fn = layer._compile('x')
+        for j, ids in enumerate(parts):
+            for i in ids:
+                v = canon(val_to_json(fn(i), b.world))
+                w = canon({'app': [f'TI{j}.x', [i], [], []]})
+                if v != w:
+                    problems.append({'desc': d, 'msg': f'x({i!r}) of the merged dataset is {v[:120]}, the owner returns {w[:120]}'})
+                    return problems
+    except Exception as e:
+        problems.append({'desc': d, 'msg': 'Merge with non-string ids raised ' + exc_name(e) + ': ' + str(e)[:150]})
+    return problems
+
+
 def run_shard(args):
     seed, n, kinds = args
     recs = []
@@ -224,6 +262,11 @@ def run_shard(args):
         if md:
             model_bad.append({'desc': rec['desc'], 'diffs': json.loads(json.dumps(md[:3], default=str))})
     stats['distinct_nontrivial'] = len(stats.pop('distinct'))
+    if kinds and 'merge' in kinds:
+        for i in range(max(2, n // 5)):
+            for p in run_typed_ids(seed * 11 + i):
+                oracle_bad.append({'desc': p['desc'], 'diffs': [['typed-ids', p['msg']]]})
+        stats['typed_ids_cases'] = max(2, n // 5)
     if kinds and 'check_ids' in kinds:
         for i in range(max(2, n // 5)):
             for p in run_dynamic_ids(seed * 7 + i):
